@@ -6,7 +6,7 @@ steps = [('ev', e) for e in prog.events]
 confs, edges = model.bfs(prog, [('start',)] + steps, max_depth=5)
 confs = [c for c in confs if c[0].started]
 print(len(confs), 'configurations', edges, 'edges')
-cpp = emit.emit_cpp(prog)
+cpp = emit.emit_cpp(prog, {'queue_api': True, 'introspect': True})
 import os
 proj = tuple(os.environ.get('PROJ', ''.join(emit.KINDS_ALL)))
 h, index = emit.emit_harness(prog, confs, steps, 'DEV', proj=proj, check_flags=bool(prog.flags))
